@@ -29,6 +29,8 @@ class ProgGen:
             ["gv", ["vec", "int", 3]],
             ["gw", ["vec", "float", 4]],
             ["gm", ["arr2"]],
+            ["gx", ["mat"]],
+            ["gq", ["structq"]],
         ]
         p = self.sw["global_density"]
         globs = [g for g in pool if r.random() < p] or [pool[0]]
@@ -118,6 +120,8 @@ class ProgGen:
             if arrs:
                 n, t = r.choice(arrs)
                 return ["idx", n, self.idx_expr(env, t[2])]
+        if c < 0.56 and "gx" in env:
+            return ["idx2", "gx", ["lit", r.randrange(4)], self.idx_expr(env, 4)]
         op = r.choice(["+", "-", "*"])
         b = self.float_expr(env, depth + 1)
         if op == "*":
@@ -159,6 +163,8 @@ class ProgGen:
                 cands.append((["fldidx", n, "a", self.idx_expr(env, 2)], "int"))
             elif t[0] == "sq":
                 cands.append((["idx2", n, ["lit", r.randrange(t[1])], self.idx_expr(env, t[1])], "int"))
+            elif t[0] == "mat":
+                cands.append((["idx2", n, ["lit", r.randrange(4)], self.idx_expr(env, 4)], "float"))
         gl = [c for c in cands if c[0][1] in self.gmap]
         return r.choice(gl if gl and r.random() < 0.7 else cands)
 
@@ -190,6 +196,29 @@ class ProgGen:
                             self.int_expr(env) if t[1] == "int" else self.float_expr(env),
                         ]
                     )
+            elif c < 0.62 and any(t[0] == "vec" for t in env.values()):
+                # vectors as whole values: local copies, constructors, arithmetic, write-back
+                vecs = [(n_, t) for n_, t in env.items() if t[0] == "vec"]
+                n_, t = r.choice(vecs)
+                same = [m_ for m_, u in vecs if u == t]
+                scal = (lambda: self.int_expr(env, 1)) if t[1] == "int" else (lambda: self.float_expr(env, 1))
+                k = r.random()
+                if k < 0.35:
+                    self.lc += 1
+                    nm = f"w{self.lc}"
+                    init = ["var", n_] if r.random() < 0.5 else ["vcons", t[1], t[2], [scal() for _ in range(t[2])]]
+                    out.append(["decl", t, nm, init])
+                    env[nm] = t
+                elif k < 0.6:
+                    out.append(["assign", ["var", n_], "=", ["var", r.choice(same)]])
+                elif k < 0.8:
+                    out.append(["assign", ["var", n_], "=", ["vbin", r.choice(["+", "-"]), ["var", r.choice(same)],
+                                                              ["var", r.choice(same)]]])
+                elif k < 0.9:
+                    out.append(["assign", ["var", n_], "=", ["vcons", t[1], t[2], [scal() for _ in range(t[2])]]])
+                else:
+                    f = ["lit", r.choice([0, 1, 2])] if t[1] == "int" else ["lit", r.choice([0.5, 1.5, 2.5])]
+                    out.append(["assign", ["var", n_], "=", ["vscale", ["var", n_], f]])
             elif c < 0.68:
                 self.lc += 1
                 nm = f"t{self.lc}"
@@ -410,6 +439,12 @@ def gen_scenario(seed, tier="quick"):
         next_vm += 1
         ops.append(["new", v, progidx])
         models[v] = Model(prog, step_limit=20000)
+        if ops and rng.random() < 0.35:
+            # what a VM shows for a global nobody has set on *it* must not depend on
+            # what happened on other VMs before
+            for n, t in prog["globals"]:
+                if rng.random() < 0.5:
+                    ops.append(["get0", v, n])
         for n, t in prog["globals"]:
             val = rand_value(vrng, t)
             ops.append(["set", v, n, val])
